@@ -288,13 +288,19 @@ func c19Run(p *run.Part, tier string) {
 	p.Add(int64(n), int64(n*n+n*n*n), 0, 0)
 	maxK := 4
 	if tier == "thorough" {
-		maxK = 5
+		maxK = 6
 	}
 	nsub := 0
 	for k := 2; k <= maxK; k++ {
 		limit := n
 		if k == 4 {
 			limit = 36 // 4-subsets from the first 36 grid entries (times 1-2, all ids and hashes)
+		}
+		if k == 4 && tier == "thorough" {
+			limit = n // every 4-subset of the whole grid
+		}
+		if k == 6 {
+			limit = 12 // 6-subsets from the first 12 grid entries (time 1, four ids, all hashes)
 		}
 		if k == 5 {
 			limit = 18 // 5-subsets from the first 18 grid entries (time 1, all ids and hashes)
